@@ -63,6 +63,11 @@ func RunProperty(prop string, c04 bool, seed int64, tier, out string) {
 			caseIdx = sw.Add(terms[i])
 			res.CaseIndex = append(res.CaseIndex, class)
 		}
+		for _, n := range r.Notes {
+			if strings.Contains(n, "deadline") || strings.Contains(n, "context") {
+				res.Warnings = append(res.Warnings, fmt.Sprintf("scenario %d: %s | %s", i, n, scs[i].String()))
+			}
+		}
 		outcome := fmt.Sprintf("settled=%v%v", r.Settled[0], r.Settled[1])
 		res.Count(class, outcome, class+"/"+outcome+"/"+shape(r), false)
 		if i < 3 {
